@@ -38,6 +38,19 @@ claim('C11',
       'enumeration with evaluated open modes, resolved call graph',
       'DESIGN.md section 4 C11')
 
+claim('C12',
+      'Taint analysis from cart-controlled text (include lines, require '
+      'strings) to every file-system sink, for all path strings at once: each '
+      'tainted sink is dominated by a raising sanitizer on the very value '
+      'opened; containment tests between paths must be component-wise; the '
+      'load path never derives from cart text.',
+      'Decided: presence, dominance, polarity and component-wise form of the '
+      'sanitizers; provenance of candidate paths. Not decided: symlinks, '
+      'non-POSIX separators; os.path normalisation semantics are trusted.',
+      'static analysis: interprocedural taint dataflow + CFG dominance of '
+      'raising guards + path-kind inference',
+      'DESIGN.md section 4 C12')
+
 
 def main():
     props = []
